@@ -235,6 +235,7 @@ def run(ctx):
     for key, lst in sorted(agg.items()):
         cf = sorted({c for c, _ in lst})
         ctx.violation(key, "%s  [%d configuration(s), e.g. %s]" % (lst[0][1][:500], len(cf), cf[0]), {"configs": cf})
+    ctx.require(len(seen_pairs) >= 1000, "only %d distinct stub pairs" % len(seen_pairs))
     ctx.extra["distinct_program_pairs"] = len(seen_pairs)
     ctx.extra["programs"] = programs
     ctx.extra["disagreements_checked"] = disagreements
